@@ -5,7 +5,7 @@ cd /repo || exit 9
 git diff --quiet || { echo "/repo not clean"; exit 9; }
 git apply /verif/seeded/$name/patch.diff || { echo "patch does not apply"; exit 9; }
 VF_EVIDENCE_DIR=/verif/.work/seed_ev VF_REPLAY_DIR=/verif/.work/seed_rp /verif/bin/check $pid > /verif/seeded/$name/check_output.txt 2>&1; rc=$?
-git checkout -- .
+git checkout -- . ; git clean -fdq src
 grep -E "VIOLATION|obligation:|ENGINE|UNDECIDED|DEMOTED|^C[0-9]+:" /verif/seeded/$name/check_output.txt | head -${3:-12}; echo "check exit $rc"
 python3 - "$name" "$rc" <<'PY'
 import json,sys
